@@ -51,6 +51,7 @@ func exploreProfiles(r *ev.Result, budget time.Duration, profiles ...*bworld.Pro
 			"states_per_depth": res.PerDepth,
 			"exhaustive":       res.Exhaustive,
 			"cap":              res.CapNote,
+			"unstable_dropped": res.Unstable,
 			"bounds":           p,
 		})
 		for _, s := range res.Samples {
@@ -99,3 +100,36 @@ func brokerReplayFunc(kind string, raw json.RawMessage) int {
 const brokerRule = "explicit-state BFS over the real iobroker.Broker: a state is an event history, successors replay it on a fresh broker and add one event, " +
 	"states are deduplicated by a canonical form (broker fields, per-attempt half states sorted, stream flags, queue lengths); " +
 	"distinct_nontrivial = distinct canonical states; evaluations = executions on the real broker"
+
+func init() {
+	/* bstress <violation.json> <n>: run one history n times and count the
+	distinct final canonical states (a determinism probe). */
+	workers["bstress"] = func(args []string) int {
+		b, err := os.ReadFile(args[0])
+		if nil != err {
+			return 2
+		}
+		var v struct {
+			Replay brokerReplay `json:"replay"`
+		}
+		if err := json.Unmarshal(b, &v); nil != err {
+			return 2
+		}
+		n := 1000
+		fmt.Sscan(args[1], &n)
+		counts := map[string]int{}
+		for i := 0; i < n; i++ {
+			w, _, err := bworld.RunHistory(v.Replay.Profile, v.Replay.History, nil, nil)
+			if nil != err {
+				fmt.Println(err)
+				return 2
+			}
+			counts[w.Canon()]++
+			w.Close()
+		}
+		for c, k := range counts {
+			fmt.Printf("%6d  %s\n", k, c)
+		}
+		return 0
+	}
+}
